@@ -126,7 +126,7 @@ def obligation_samples(res, items, n=4):
 
 
 def write_replay(prop, name, payload):
-    d = os.path.join(VERIF, 'work', 'replays')
+    d = os.environ.get('VERIF_REPLAY_DIR', os.path.join(VERIF, 'work', 'replays'))
     os.makedirs(d, exist_ok=True)
     p = os.path.join(d, '%s_%s.json' % (prop, re.sub(r'[^A-Za-z0-9_]+', '_', name)[:80]))
     json.dump(payload, open(p, 'w'), indent=1)
@@ -312,8 +312,9 @@ def assumptions_for(prop):
 def finish(ev, prop, t0, exit_code):
     ev['wall_s'] = round(time.time() - t0, 2)
     ev['exit_code'] = exit_code
-    os.makedirs(os.path.join(VERIF, 'evidence'), exist_ok=True)
-    json.dump(ev, open(os.path.join(VERIF, 'evidence', prop + '.json'), 'w'), indent=1)
+    evdir = os.environ.get('VERIF_EVIDENCE_DIR', os.path.join(VERIF, 'evidence'))
+    os.makedirs(evdir, exist_ok=True)
+    json.dump(ev, open(os.path.join(evdir, prop + '.json'), 'w'), indent=1)
     cov = ev.get('coverage', {})
     log('%s tier=%s obligations=%s discharged=%s violations=%s wall=%.1fs exit=%d' % (
         prop, ev['tier'], cov.get('obligations'), cov.get('discharged'), ev.get('violations'), ev['wall_s'], exit_code))
